@@ -17,6 +17,7 @@ fn main() {
         "plan" => plan::main_plan(),
         "pool" => pool::main_pool(),
         "pool-stress" => pool::main_pool_stress(),
+        "pool-race" => pool::main_pool_race(),
         "requests" => requests::main_requests(),
         _ => {
             eprintln!("usage: vh-graph <plan|...> [options]");
